@@ -8,6 +8,7 @@ import (
 	"path/filepath"
 	"strings"
 	"syscall"
+	"time"
 )
 
 // FaultFS is the per-run file-system fault plan consulted by the os shims (and by
@@ -141,6 +142,13 @@ func OsRename(oldpath, newpath string) error {
 	return os.Rename(oldpath, newpath)
 }
 
+func OsLink(oldname, newname string) error {
+	if err := FSOp("link", oldname+" -> "+newname); err != nil {
+		return err
+	}
+	return os.Link(oldname, newname)
+}
+
 func OsReadFile(name string) ([]byte, error) {
 	if err := FSOp("readfile", name); err != nil {
 		return nil, err
@@ -237,3 +245,33 @@ func ZmqSendMessage(sock zmqSender, parts ...interface{}) (int, error) {
 	}
 	return sock.SendMessage(parts...)
 }
+
+// ---- timers
+//
+// Two timers created in the same scheduling step start at the same fake instant, so tickers
+// whose periods divide each other (a 50 ms data ticker and a 1 s heartbeat ticker made by one
+// goroutine) expire at exactly the same nanosecond over and over. A goroutine blocked in a
+// select on both is then woken by whichever the runtime's timer heap happens to serve first,
+// which no seed controls. Creating a timer therefore costs a little virtual CPU time: a few
+// nanoseconds, different for consecutive creations, so equal expiry instants do not arise.
+
+var timerSkewCounter int
+
+//go:norace
+func timerSkew() {
+	s := active()
+	if s == nil {
+		return
+	}
+	tk := lookupTask()
+	if tk == nil || tk.dying {
+		return
+	}
+	timerSkewCounter++
+	time.Sleep(time.Duration(3+7*(timerSkewCounter%97)) * time.Nanosecond)
+}
+
+func TimeNewTicker(d time.Duration) *time.Ticker { timerSkew(); return time.NewTicker(d) }
+func TimeNewTimer(d time.Duration) *time.Timer   { timerSkew(); return time.NewTimer(d) }
+func TimeAfter(d time.Duration) <-chan time.Time { timerSkew(); return time.After(d) }
+func TimeTick(d time.Duration) <-chan time.Time  { timerSkew(); return time.Tick(d) }
